@@ -420,6 +420,136 @@ theorem changes_explained_monitor {env : Env} {s s' : State} {op : Op} (hI : Reg
       exact (step_idx hI h p.1 n).2 hn
 
 
+theorem no_recreate_monitor {env : Env} {s s' : State} {op : Op} (hI : RegInv s) (h : step env s op = .ok s') :
+    c16_no_recreate { env := env, pre := s, op := op, ok := true, post := s' } = true := by
+  -- the two facts the monitor states, for every operation
+  have keep : ∀ n r, s.getCSR n = some r → ∃ r', s'.getCSR n = some r' ∧ r'.id = r.id ∧ r.contracts <+: r'.contracts := by
+    intro n r hr
+    cases op with
+    | postTx to gu gp logs => exact no_recreate_postTx hI h hr
+    | setParams auth en share =>
+      simp only [step] at h
+      obtain ⟨_, _, h⟩ := bind_ok h
+      obtain ⟨_, _, h⟩ := bind_ok h
+      injection h with h; subst h
+      exact ⟨r, hr, rfl, List.prefix_refl _⟩
+    | send src dst d amt =>
+      simp only [step] at h
+      obtain ⟨b, _, h⟩ := bind_ok h
+      injection h with h; subst h
+      exact ⟨r, hr, rfl, List.prefix_refl _⟩
+  have fresh : ∀ n r', s'.getCSR n = some r' → s.getCSR n = none →
+      ∃ ts, s.turnstile = some ts ∧ ∃ l ∈ opLogs op, registersAs ts n r'.contracts.head? l = true := by
+    intro n r' hr' hnone
+    cases op with
+    | postTx to gu gp logs =>
+      obtain ⟨_, hmap⟩ := fee_distribution_preserves_registry hI h
+      have hm := hmap n
+      rw [hr'] at hm
+      unfold afterEvents at hm
+      split at hm
+      · rw [hnone] at hm; cases hm
+      · split at hm
+        · rw [hnone] at hm; cases hm
+        · rename_i ts hts
+          cases h1 : (processEvents env ts s logs).getCSR n with
+          | none => rw [h1] at hm; cases hm
+          | some r1 =>
+            rw [h1] at hm
+            simp only [Option.map_some, Option.some.injEq, Prod.mk.injEq] at hm
+            obtain ⟨l, hl, hreg⟩ := new_id_explained logs hI n h1 hnone
+            exact ⟨ts, hts, l, hl, by rw [hm.2]; exact hreg⟩
+    | setParams auth en share =>
+      simp only [step] at h
+      obtain ⟨_, _, h⟩ := bind_ok h
+      obtain ⟨_, _, h⟩ := bind_ok h
+      injection h with h; subst h
+      have hr' : s.getCSR n = some r' := hr'
+      rw [hnone] at hr'; cases hr'
+    | send src dst d amt =>
+      simp only [step] at h
+      obtain ⟨b, _, h⟩ := bind_ok h
+      injection h with h; subst h
+      have hr' : s.getCSR n = some r' := hr'
+      rw [hnone] at hr'; cases hr'
+  simp only [c16_no_recreate, Bool.and_eq_true, List.all_eq_true]
+  constructor
+  · intro p _
+    cases hr : s.getCSR p.1 with
+    | none => rfl
+    | some r =>
+      obtain ⟨r', hr', hid, hpre⟩ := keep p.1 r hr
+      rw [hr']
+      simp only [Bool.and_eq_true, beq_iff_eq, List.isPrefixOf_iff_prefix]
+      exact ⟨hid, hpre⟩
+  · intro p _
+    cases hr : s.getCSR p.1 with
+    | some r => rfl
+    | none =>
+      cases hr' : s'.getCSR p.1 with
+      | none => rfl
+      | some r' =>
+        obtain ⟨ts, hts, l, hl, hreg⟩ := fresh p.1 r' hr' hr
+        simp only [Option.isSome_none, Bool.false_or, Bool.and_eq_true, List.any_eq_true]
+        exact ⟨by rw [hts]; rfl, l, hl, by rw [hts]; exact hreg⟩
+
+theorem inert_preserves_registry_monitor {env : Env} {s s' : State} {op : Op} (hI : RegInv s) (h : step env s op = .ok s') :
+    c16_inert_preserves_registry { env := env, pre := s, op := op, ok := true, post := s' } = true := by
+  simp only [c16_inert_preserves_registry]
+  cases hany : (opLogs op).any (isRegistryLog (s.turnstile.getD "")) with
+  | true => rfl
+  | false =>
+    have hin : ∀ l ∈ opLogs op, isRegistryLog (s.turnstile.getD "") l = false := by
+      intro l hl
+      cases hb : isRegistryLog (s.turnstile.getD "") l with
+      | false => rfl
+      | true =>
+        have : (opLogs op).any (isRegistryLog (s.turnstile.getD "")) = true := List.any_eq_true.mpr ⟨l, hl, hb⟩
+        rw [hany] at this; cases this
+    -- the registry of the post-state, up to the counters, is that of the pre-state
+    have key : s'.idx = s.idx ∧ ∀ n, (s'.getCSR n).map (fun r => (r.id, r.contracts)) = (s.getCSR n).map (fun r => (r.id, r.contracts)) := by
+      cases op with
+      | postTx to gu gp logs =>
+        have hae : afterEvents env s logs = s := by
+          unfold afterEvents
+          split
+          · rfl
+          · split
+            · rfl
+            · rename_i ts hts
+              apply inert_receipt_noop
+              intro l hl
+              have := hin l hl
+              rw [hts] at this; exact this
+        have := fee_distribution_preserves_registry hI h
+        rw [hae] at this; exact this
+      | setParams auth en share =>
+        simp only [step] at h
+        obtain ⟨_, _, h⟩ := bind_ok h
+        obtain ⟨_, _, h⟩ := bind_ok h
+        injection h with h; subst h
+        exact ⟨rfl, fun _ => rfl⟩
+      | send src dst d amt =>
+        simp only [step] at h
+        obtain ⟨b, _, h⟩ := bind_ok h
+        injection h with h; subst h
+        exact ⟨rfl, fun _ => rfl⟩
+    obtain ⟨k1, k2⟩ := key
+    have hnft : ∀ c, s'.nftOf c = s.nftOf c := fun c => by simp only [State.nftOf, k1]
+    simp only [Bool.false_or, Bool.and_eq_true, List.all_eq_true, idxEq, beq_iff_eq, Bool.or_eq_true]
+    refine ⟨⟨⟨fun p _ => hnft p.1, fun p _ => (hnft p.1).symm⟩, fun p _ => k2 p.1⟩, ?_⟩
+    intro p _
+    cases hr' : s'.getCSR p.1 with
+    | none => right; rfl
+    | some r' =>
+      left
+      have := k2 p.1
+      rw [hr'] at this
+      cases hr : s.getCSR p.1 with
+      | none => rw [hr] at this; cases this
+      | some r => rfl
+
+
 /-! ## non-vacuity: a concrete receipt that registers, assigns, is refused, and is ignored -/
 
 def exEnv : Env := { modAddr := "m.csr", feeCollector := "m.fee_collector", evmAddr := "m.evm", zeroAddr := "zero", denom := "acanto" }
